@@ -131,13 +131,31 @@ def check_case(case, ctx):
                                trailing=case["trailing"])
         detectable = case["marker"] or (case["size_ok"] and not case["trailing"])
         fh = io.BytesIO(enc)
+        tmp_path = None
+        if case.get("via") == "mmap":
+            import mmap
+
+            fh = mmap.mmap(-1, len(enc))
+            fh.write(enc)
+            fh.seek(0)
         if case.get("fhpos") is not None:
             # the file object has been used before (hashed, scanned, decoded once): detection must not depend on its position
             fh.seek(min(case["fhpos"], len(enc)) if case["fhpos"] >= 0 else len(enc))
         try:
             # maxrange bounds the search for the nonce offset only ("how far into the file ... nonce_offset candidates"):
             # any value that covers the stub must give the same result as the default, whatever the image's e_lfanew is
-            xf = xordecode.XorEncodedFile.from_file(fh) if not case.get("maxrange") else xordecode.XorEncodedFile.from_file(fh, maxrange=off + case["maxrange"])
+            kw = {} if not case.get("maxrange") else {"maxrange": off + case["maxrange"]}
+            if case.get("via") == "path":
+                # the path constructor is the same detection on the file's bytes, search range included
+                fd, tmp_path = tempfile.mkstemp(prefix="vf_c09_")
+                os.write(fd, enc)
+                os.close(fd)
+                try:
+                    xf = xordecode.XorEncodedFile.from_path(tmp_path, **kw)
+                finally:
+                    os.unlink(tmp_path)
+            else:
+                xf = xordecode.XorEncodedFile.from_file(fh, **kw)
         except ValueError:
             xf = None
         except Exception as e:  # noqa: BLE001
@@ -170,7 +188,7 @@ def check_case(case, ctx):
                 return
         ctx.ok(fp=enc, case={k: v for k, v in case.items() if k != "plain"} | {"plain_len": len(plain)}, classes=(
             f"detect:marker={case['marker']},size={case['size_ok'] and not case['trailing']}", f"prepend:{min(case['prepend'] // 300, 3)}",
-            "stub:decoy-markers" if stub.count(b"\xff\xff\xff") else "stub:clean", f"maxrange:{'default' if not case.get('maxrange') else 'stub+' + str(case['maxrange'])}"))
+            "stub:decoy-markers" if stub.count(b"\xff\xff\xff") else "stub:clean", f"maxrange:{'default' if not case.get('maxrange') else 'stub+' + str(case['maxrange'])}", f"via:{case.get('via') or 'bytesio'}"))
     elif case["op"] == "shortfile":
         # the direct constructor on a file that ends before or inside the nonce/size field: an empty decoded file
         from dissect.cobaltstrike import pe
@@ -349,13 +367,18 @@ def run_shard(shard, ctx):
                 pos = rng.randrange(0, len(b) - 5)
                 b[pos : pos + 3] = b"\xff\xff\xff"
                 stub = bytes(b)
+            mr = rng.choice([0, 0, 1, 8, 100, 2000]) if (marker or (size_ok and not trailing)) else 0
+            if mr and rng.random() < 0.4:
+                # a stub longer than the default search range, found because the caller widens the range
+                stub = P.filler(rng, rng.randrange(1024, 3000))
             nonce = rng.randbytes(4)
             if marker and rng.random() < 0.45:
                 # the run of ff bytes of the marker continues into the nonce
                 nonce = rng.choice([b"\xff" + rng.randbytes(3), b"\xff\xff" + rng.randbytes(2), b"\xff\xff\xff\xff", rng.randbytes(3) + b"\xff"])
             check_case({"op": "detect", "plain": plain, "nonce": nonce, "stub": stub, "marker": marker,
                         "size_ok": size_ok, "trailing": trailing, "prepend": prepend,
-                        "maxrange": rng.choice([0, 0, 1, 8, 100, 2000]) if (marker or (size_ok and not trailing)) else 0,
+                        "maxrange": mr,
+                        "via": rng.choice([None, None, None, None, "mmap", "path"]),
                         "fhpos": rng.choice([None, None, -1, 1, len(stub) + 3, len(stub) + 11, rng.randrange(0, 5000)])}, ctx)
     elif kind == "plain":
         for off in (0, 1, 5, 33):
